@@ -434,7 +434,7 @@ def replay_finer(sc):
     return bool(bad), f"build_finer_grid(eps={eps}, T={T}) on times {jt.tolist()} values {jv.tolist()}" + (f" coarse {cv.tolist()}" if c2 is not None else "") + ": " + "; ".join(bad[:3])
 
 
-def h_finer(ctx, which, njumps):
+def h_finer(ctx, which, njumps, prefix="C15"):
     eps = ctx.real("eps")
     ctx.assume(eps > 0)
     T = ctx.real("T")
@@ -461,9 +461,9 @@ def h_finer(ctx, which, njumps):
     info = {"which": which, "jumps": njumps, "points": n}
     rp = (replay_finer, lambda m: {"which": which, "jt": _vals(m, jt0), "jv": _vals(m, jv0), "cv": _vals(m, cv0) if which != "levyprocess" else None, "eps": m.f(eps), "T": m.f(T)})
     steps = [t2[0]] + [t2[i + 1] - t2[i] for i in range(n - 1)]
-    ctx.prove("C15.maxstep.every_step_at_most_epsilon", AND(*[s <= eps for s in steps]), info=info, replay=rp)
-    ctx.prove("C15.maxstep.times_strictly_increasing", AND(t2[0] > 0, *[t2[i] < t2[i + 1] for i in range(n - 1)]), info=info, replay=rp)
-    ctx.prove("C15.maxstep.arrays_aligned", len(v2) == n and (c2 is None or len(c2) == n), info=info, replay=rp)
+    ctx.prove(f"{prefix}.maxstep.every_step_at_most_epsilon", AND(*[s <= eps for s in steps]), info=info, replay=rp)
+    ctx.prove(f"{prefix}.maxstep.times_strictly_increasing", AND(t2[0] > 0, *[t2[i] < t2[i + 1] for i in range(n - 1)]), info=info, replay=rp)
+    ctx.prove(f"{prefix}.maxstep.arrays_aligned", len(v2) == n and (c2 is None or len(c2) == n), info=info, replay=rp)
     # original pairs kept in order; inserted points repeat the preceding value (0 before the first jump)
     j = 0
     prev_v, prev_c = 0.0, 0.0
@@ -480,8 +480,8 @@ def h_finer(ctx, which, njumps):
             ok_terms.append(EQ(v2[i], prev_v))
             if c2 is not None:
                 ok_terms.append(EQ(c2[i], prev_c))
-    ctx.prove("C15.maxstep.original_points_kept_in_order", j == njumps, info=info, replay=rp)
-    ctx.prove("C15.maxstep.values_kept_and_inserted_points_repeat_predecessor", AND(*ok_terms), info=info, replay=rp)
+    ctx.prove(f"{prefix}.maxstep.original_points_kept_in_order", j == njumps, info=info, replay=rp)
+    ctx.prove(f"{prefix}.maxstep.values_kept_and_inserted_points_repeat_predecessor", AND(*ok_terms), info=info, replay=rp)
 
 
 def replay_finer_nd(sc):
